@@ -51,7 +51,7 @@ theorem setTrials_len {d : List Entry} {key : Nat} {f : Int → Int}
 
 theorem nextTrial_WF {s s' : QState} (hw : WF s) (h : nextTrial s = .ok (some s')) :
     WF s' ∧ s'.paused = s.paused ∧ ∃ src, s'.source = some src ∧ src.off = 0 ∧ 0 < src.len := by
-  obtain ⟨key, s1, s2, e, d, hk, hd, he, _, rfl⟩ := nextTrial_some h
+  obtain ⟨key, s1, s2, e, d, hk, hd, he, _, _, rfl⟩ := nextTrial_some h
   have f1 := nextKey_frame hk
   have f2 := decrementKey_frame hd
   have hdata : ∀ (i : Nat) (e : Entry), s2.data[i]? = some e → 0 < e.len := by
